@@ -243,16 +243,55 @@ def compare(ctx, rec, val):
 ALPHA = ["-", "-", "a", " ", "x", "m", "l", "X", "M", "L", "K", "é"]
 
 
+REQ_SPEC = ("From Coq Require Import List NArith.\nFrom Delb.Base Require Import PyStr.\n"
+            "From Delb.Conc Require Import SetterSpec.\nLocal Open Scope N_scope.\n")
+MULTILINE = ["a\n--", "a\nb-", "\n-", "x\n--y", "first line\nsecond -- line", "a\nb", "--\nx", "a-\nb", "\n"]
+
+
+def comment_rule_py(s):
+    """the stated rule (XML 1.0, 2.5), independent of the source"""
+    return "--" in s or s.endswith("-")
+
+
 def validator_cases(ctx, n):
-    strs = ["", "-", "--", "a-", "a--b", "-a", "xml", "XML", "xMl", "xmlx", "xm", " xml", "ℳ"]
+    strs = ["", "-", "--", "a-", "a--b", "-a", "xml", "XML", "xMl", "xmlx", "xm", " xml", "\u2133"] + MULTILINE
     for _ in range(n):
-        strs.append("".join(ctx.rng.choice(ALPHA) for _ in range(ctx.rng.randint(0, 5))))
+        strs.append("".join(ctx.rng.choice(ALPHA + ["\n"]) for _ in range(ctx.rng.randint(0, 6))))
+    # the independent rule, evaluated in Coq (Conc/SetterSpec.v does not depend on anything generated from the validators)
+    spec_vals = ctx.coq_eval("c09r", REQ_SPEC, ["[if comment_rule %s then 1 else 0]" % T.gstr(s) for s in strs], chunk=400)
     terms = []
     for s in strs:
         terms.append("[if comment_content_refused %s then 1 else 0]" % T.gstr(s))
         terms.append("[if pi_target_refused %s then 1 else 0]" % T.gstr(s))
     vals = ctx.coq_eval("c09v", REQ_VAL, terms, chunk=400)
     for i, s in enumerate(strs):
+        # ---- comment content against the stated rule: attached and parentless comments
+        rule = comment_rule_py(s)
+        if spec_vals[i] is not None and bool(spec_vals[i][0]) != rule:
+            ctx.mismatch("comment_rule in Coq vs the same rule in Python", {"value": s})
+        for where in ("attached", "parentless"):
+            ctx.count(1, "comment-rule/" + where)
+            node = new_comment_node("c")
+            r = Document("<r/>").root
+            if where == "attached":
+                r.append_children(node)
+            before = (str(r), node.content)
+            try:
+                node.content = s
+                raised = None
+            except Exception as e:  # noqa: BLE001
+                raised = type(e).__name__
+            case = {"category": "validator", "value": s, "comment": where, "exception": raised}
+            if rule and raised is None:
+                ctx.fail("the content setter accepts what the rule for comments refuses ('--' inside or '-' at the end): "
+                         "the tree now serialises to ill-formed XML", dict(case, serialisation=str(r) if where == "attached" else str(node)), classify)
+            elif raised not in (None, "ValueError"):
+                ctx.fail("comment content assignment fails with %s" % raised, case, classify)
+            elif raised and (str(r), node.content) != before:
+                ctx.fail("node changed by a refused comment content assignment", case, classify)
+            elif not rule and raised:
+                ctx.mismatch("the content setter refuses a value the stated rule accepts", {"case": case})
+        # ---- the generated validators against the implementation
         for which, v in (("comment", vals[2 * i]), ("pi", vals[2 * i + 1])):
             ctx.count(1, "validator/" + which)
             node = new_comment_node("c") if which == "comment" else new_processing_instruction_node("t", "c")
@@ -271,7 +310,7 @@ def validator_cases(ctx, n):
                 raised = type(e).__name__
             if v is None:
                 ctx.mismatch("validator evaluation", "coqc failed")
-                return
+                continue
             if bool(v[0]) != (raised == "ValueError"):
                 ctx.mismatch("generated %s validator vs implementation" % which, {"value": s, "impl": raised, "model": v})
             if raised and (str(r), node.content, getattr(node, "target", None)) != before:
@@ -535,6 +574,7 @@ def fixed_cases(ctx):
 def run(ctx, args):
     ctx.branches, ctx.skipped = {}, {}
     ctx.regen(["GenWs.v", "GenValidators.v"])
+    ctx.build("Conc/SetterSpec.vo")
     ctx.build("Props/C09.vo")
     quick = ctx.tier == "quick"
     with no_gc():
